@@ -196,6 +196,30 @@ def rw_two_handle_workload(ver, maxbuf):
     return {"ver": ver, "maxbuf": maxbuf, "mode": "rw_faults", "streams": streams, "ops": ops}
 
 
+def rw_small_workloads():
+    """Short workloads around the FIRST use of each table (first mini sector of a file: MiniFAT chain, header
+    fields, mini stream container; first growth of an existing MiniFAT; migration in both directions).  They are
+    short enough for a fault at EVERY backend call in the quick tier."""
+    f = gens.Fill()
+    rng = random.Random(41)
+    w = lambda n: {"op": "write", "runs": f.runs(rng, n)}
+    FL = [{"op": "flush"}, {"op": "position"}, {"op": "flush"}, {"op": "fresh_read"}]
+    reread = lambda nm: [{"op": "open_stream", "name": nm}, {"op": "open_stream", "name": nm}, {"op": "fresh_read"}, {"op": "close"}]
+    out = []
+    for ver in (3, 4):
+        ops = [{"op": "open"}, {"op": "create_stream", "name": "a"}, {"op": "create_stream", "name": "a"}, w(700), {"op": "position"}] + FL + \
+              [{"op": "close"}] + reread("a")
+        out.append({"ver": ver, "maxbuf": 1024, "mode": "rw_faults", "streams": [], "ops": ops, "every_k": True})
+    streams = [{"name": "bar", "runs": f.runs(rng, 5000)}, {"name": "m", "runs": f.runs(rng, 300)}]
+    ops = [{"op": "open"}, {"op": "open_stream", "name": "m"}, {"op": "open_stream", "name": "m"},
+           {"op": "seek", "whence": "end", "d": 0, "sym": ""}, {"op": "position"}, w(200), {"op": "position"}] + FL + \
+          [{"op": "set_len", "n": 5000}, {"op": "position"}, {"op": "set_len", "n": 5000}, {"op": "position"}] + FL + \
+          [{"op": "set_len", "n": 100}, {"op": "position"}, {"op": "set_len", "n": 100}, {"op": "position"}] + FL + \
+          [{"op": "close"}] + reread("m") + reread("bar")
+    out.append({"ver": 3, "maxbuf": None, "mode": "rw_faults", "streams": streams, "ops": ops, "every_k": True})
+    return out
+
+
 def rw_workload(ver, maxbuf, variant=0):
     if variant == 2:
         return rw_remove_workload(ver, maxbuf)
